@@ -811,11 +811,42 @@ func topLevelDefers(fd *ast.FuncDecl) map[*ast.DeferStmt]bool {
 	mayReturn := false
 	for _, s := range fd.Body.List {
 		if d, ok := s.(*ast.DeferStmt); ok {
-			if mayReturn {
-				return map[*ast.DeferStmt]bool{}
-			}
-			if _, isLit := d.Call.Fun.(*ast.FuncLit); isLit {
-				return map[*ast.DeferStmt]bool{}
+			_ = mayReturn // returns before a defer simply do not run it (handled per return site)
+			if lit, isLit := d.Call.Fun.(*ast.FuncLit); isLit {
+				// a deferred closure without arguments: it reads its variables when it runs,
+				// which is what running it at the return sites does; it must not recover and
+				// must not assign the callee's named results
+				okLit := len(d.Call.Args) == 0
+				named := map[string]bool{}
+				if fd.Type.Results != nil {
+					for _, f := range fd.Type.Results.List {
+						for _, nm := range f.Names {
+							named[nm.Name] = true
+						}
+					}
+				}
+				ast.Inspect(lit.Body, func(n ast.Node) bool {
+					switch x := n.(type) {
+					case *ast.CallExpr:
+						if id, ok := x.Fun.(*ast.Ident); ok && id.Name == "recover" {
+							okLit = false
+						}
+					case *ast.AssignStmt:
+						for _, l := range x.Lhs {
+							if id, ok := l.(*ast.Ident); ok && named[id.Name] {
+								okLit = false
+							}
+						}
+					case *ast.ReturnStmt:
+						// returns of the closure itself are fine
+					}
+					return okLit
+				})
+				if !okLit {
+					return map[*ast.DeferStmt]bool{}
+				}
+				out[d] = true
+				continue
 			}
 			okExpr := true
 			ast.Inspect(d.Call, func(n ast.Node) bool {
